@@ -476,6 +476,16 @@ def _renamed(cell, only):
     return cell + '_L2' if (only is None or cell in only) else cell
 
 
+def _copy_without_contig(src, dst, contig):
+    """copy of a BAM (same header) that holds no record on `contig`: a library without reads there"""
+    import pysam
+    with pysam.AlignmentFile(src) as f, pysam.AlignmentFile(dst, 'wb', header=f.header) as o:
+        for r in f.fetch(until_eof=True):
+            if r.reference_name != contig:
+                o.write(r)
+    pysam.index(dst)
+
+
 def _run_histories(acc, tier):
     """(a) the BAM at one path is replaced between counting runs of the same process (nothing remembered about a path may be
     reused); (b) two libraries with disjoint cells counted in one call (as the copy-number caller does): every bin arrives once
@@ -506,15 +516,22 @@ def _run_histories(acc, tier):
         # (b) two libraries
         # the second library holds the same records with: every cell renamed (disjoint cells) / no cell renamed (the same cells
         # sequenced twice, e.g. two lanes) / one cell renamed (partly shared). Every record of both files counts once.
-        for libkind, only in (('two-libraries', None), ('two-libraries-same-cells', ()), ('two-libraries-shared-cells', ('cellB',))):
+        # ... and a FIRST library that has no read at all on one contig the second library covers (what is learnt about the
+        # contigs of one file must not decide the jobs of the next)
+        lib1_short = os.path.join(work, 'lib1_without_c2.bam')
+        _copy_without_contig(_bam(specA), lib1_short, 'c2')
+        for libkind, only in (('two-libraries', None), ('two-libraries-same-cells', ()), ('two-libraries-shared-cells', ('cellB',)),
+                              ('two-libraries-first-lacks-a-contig', None)):
           lib2 = os.path.join(work, f'lib2_{libkind}.bam')
           _renamed_copy(_bam(specA), lib2, '_L2', only)
+          lib1 = lib1_short if libkind == 'two-libraries-first-lacks-a-contig' else _bam(specA)
           for bpj in (1, 2, 5):
             base = {'fn': 'obtain_counts', 'bam': list(specA), 'bin_size': 50, 'bins_per_job': bpj, 'min_mq': 50,
                     'max_fragment_size': 100, 'key_tags': None, 'kwargs': None, 'threads': 4, 'history': libkind}
             want1, total1, _ = _expected(specA, 50, 50, None)
-            want = {k: dict(v) for k, v in want1.items()}
+            want = {k: dict(v) for k, v in want1.items() if not (lib1 is lib1_short and k[0] == 'c2')}
             for k, row in want1.items():
+                want.setdefault(k, {})
                 for cell, n in row.items():
                     want[k][_renamed(cell, only)] = want[k].get(_renamed(cell, only), 0) + n
             n_jobs = None
@@ -525,7 +542,7 @@ def _run_histories(acc, tier):
                 case = dict(base, order=order)
                 with _scheduled(order) as sch:
                     try:
-                        got, err = c12_run.call(case, [_bam(specA), lib2]), None
+                        got, err = c12_run.call(case, [lib1, lib2]), None
                     except bind.HarnessError:
                         raise
                     except Exception as e:
